@@ -10,6 +10,7 @@ import inspect
 import io
 import keyword
 import logging
+import operator
 import sys
 import time
 import traceback
@@ -85,6 +86,25 @@ TRIGGER_KWARGS = {
     "var_name",
     "value",
     "webhook_id",
+}
+
+#
+# In-place operator functions for augmented assignment
+#
+AUGASSIGN_OPS = {
+    ast.Add: operator.iadd,
+    ast.Sub: operator.isub,
+    ast.Mult: operator.imul,
+    ast.MatMult: operator.imatmul,
+    ast.Div: operator.itruediv,
+    ast.FloorDiv: operator.ifloordiv,
+    ast.Mod: operator.imod,
+    ast.Pow: operator.ipow,
+    ast.LShift: operator.ilshift,
+    ast.RShift: operator.irshift,
+    ast.BitOr: operator.ior,
+    ast.BitXor: operator.ixor,
+    ast.BitAnd: operator.iand,
 }
 
 WEBHOOK_METHODS = {
@@ -1425,10 +1445,20 @@ class AstEval:
 
     async def ast_augassign(self, arg):
         """Execute augmented assignment statement (lhs <BinOp>= value)."""
+        inplace_op = AUGASSIGN_OPS[type(arg.op)]
+        if isinstance(arg.target, ast.Subscript):
+            # evaluate the container and the index only once
+            var = await self.aeval(arg.target.value)
+            idx = await self.aeval(arg.target.slice)
+            old_val = var[idx]
+            var[idx] = inplace_op(old_val, await self.aeval(arg.value))
+            return
         arg.target.ctx = ast.Load()
-        new_val = await self.aeval(ast.BinOp(left=arg.target, op=arg.op, right=arg.value))
-        arg.target.ctx = ast.Store()
-        await self.recurse_assign(arg.target, new_val)
+        try:
+            old_val = await self.aeval(arg.target)
+        finally:
+            arg.target.ctx = ast.Store()
+        await self.recurse_assign(arg.target, inplace_op(old_val, await self.aeval(arg.value)))
 
     async def ast_annassign(self, arg):
         """Execute type hint assignment statement and track __annotations__."""
